@@ -307,23 +307,27 @@ func aggregateRows(selectList sql.SelectList, groupBy []sql.ColumnReference, row
 		return emptyAggregateRow(selectList, rows)
 	}
 
-	// map columns to indexes on the select list
-	colToIdx := map[sql.ColumnReference]int{}
-	for idx, col := range selectList {
-		switch col := col.ValueExpressionPrimary.(type) {
-		case sql.ColumnReference:
-			colToIdx[col] = idx
+	// map GROUP BY columns to indexes on the select list. a GROUP BY column
+	// names a select column by its name, its qualified name or its alias.
+	var groupIdxs []int
+	for _, groupByCol := range groupBy {
+		for idx, col := range selectList {
+			if col.Matches(groupByCol) {
+				groupIdxs = append(groupIdxs, idx)
+				break
+			}
 		}
 	}
 
-	// generate keys for GROUP BY values
+	// generate keys for GROUP BY values. each value is written with its type
+	// and in quoted form, so that two rows get the same key only if all their
+	// grouping values are equal.
 	groupKey := func(row *storage.Row) string {
-		var key string
-		for _, groupByCol := range groupBy {
-			idx := colToIdx[groupByCol]
-			key += fmt.Sprintf("%v", row.Vals[idx])
+		var key strings.Builder
+		for _, idx := range groupIdxs {
+			fmt.Fprintf(&key, "%T(%#v)", row.Vals[idx], row.Vals[idx])
 		}
-		return key
+		return key.String()
 	}
 
 	// map group key to the index of the row that contains the aggregated value
